@@ -1,5 +1,7 @@
 import EsbuildModel.Impl.VlqBytes
 import EsbuildModel.Impl.Pieces
+import EsbuildModel.Impl.ToInt32
+import EsbuildModel.Impl.Compat
 
 open EsbuildModel
 
@@ -7,6 +9,8 @@ def dispatch (kernel : String) (args : List String) : String :=
   match kernel with
   | "vlq" => Vlq.driver args
   | "pieces" => Pieces.driver args
+  | "toint32" => ToInt32.driver args
+  | "compat" => Compat.driver args
   | _ => "bad-kernel"
 
 partial def loop (hin hout : IO.FS.Stream) : IO Unit := do
